@@ -21,6 +21,7 @@ type Val struct {
 	Map  *SymMap
 	Iter *SymIter
 	Tup  []*Val
+	St   *State // state in which memory reachable from the value was produced (contract method calls)
 }
 
 type SymMap struct {
@@ -48,10 +49,16 @@ type State struct {
 	heap  map[string]string
 	wm    string
 	ghost map[string]string
+	// epoch: for each heap key the array and the watermark at the last point
+	// where the key was havoced (absent: the initial array and wm0)
+	epoch map[string][2]string
 }
 
 func (s *State) clone() *State {
-	n := &State{heap: make(map[string]string, len(s.heap)), wm: s.wm, ghost: make(map[string]string, len(s.ghost))}
+	n := &State{heap: make(map[string]string, len(s.heap)), wm: s.wm, ghost: make(map[string]string, len(s.ghost)), epoch: make(map[string][2]string, len(s.epoch))}
+	for k, v := range s.epoch {
+		n.epoch[k] = v
+	}
 	for k, v := range s.heap {
 		n.heap[k] = v
 	}
@@ -109,6 +116,7 @@ type VC struct {
 	axioms      map[string][]*axiomRec
 	instDone    map[string]int
 	naxiom      int
+	hyps        []func(at string)
 	parents     map[string][]string // heap array -> arrays it is defined from
 	axiomOf     map[string]*axiomRec
 }
@@ -499,4 +507,18 @@ func arrayTokens(term, prefix string) []string {
 		}
 	}
 	return out
+}
+
+// methodOf finds the method `name` in the method set of t (or *t).
+func (w *World) methodOf(t types.Type, name string) *ssa.Function {
+	for _, tt := range []types.Type{t, types.NewPointer(t)} {
+		if sel := w.prog.MethodSets.MethodSet(tt).Lookup(w.pkg.Pkg, name); sel != nil {
+			if _, ok := tt.Underlying().(*types.Pointer); ok || tt == t {
+				if f := w.prog.MethodValue(sel); f != nil && (tt == t || !isPtrT(t)) {
+					return f
+				}
+			}
+		}
+	}
+	return nil
 }
